@@ -90,7 +90,7 @@ Proof. intros Wf B0 Br e Hw Hkf. pose proof Wf as Wf'. simpl in Wf'.
   - apply (Hbool "and_test" "and" eq_refl eq_refl); [intros; apply wn_and|reflexivity].
   - (* comparison *)
     pose proof (Hshape "comparison" eq_refl eq_refl) as H3. rewrite walk_node_eq, wn_comparison in H3.
-    destruct (Nat.ltb _ 3 || Nat.even _); [discriminate H3|]. destruct (reject_chains c && Nat.ltb 3 _); [discriminate H3|].
+    destruct (Nat.ltb _ 3 || Nat.even _); [discriminate H3|]. destruct (Nat.ltb 3 _); [discriminate H3|].
     rewrite odds_inter2, evens_map, evens_inter2, !map_map in H3. cbn [map nth tok_text] in H3.
     apply Hchain; [simpl; tauto|exact H3].
   - cbn [level_name level_keeps] in Hw. rewrite flat_map_snd in Hw. rewrite walk_node_eq, (wn_bitwise c "expr") in Hw; [discriminate Hw|simpl; tauto].
